@@ -29,9 +29,13 @@ TIME_QUICK = [("Timers.tla", "MC_time_%d.cfg" % k, 2, "3g", 600) for k in (0, 10
 TIME_THOROUGH = TIME_QUICK + [("Timers.tla", "MC_time_%d.cfg" % k, 4, "6g", 1800) for k in (6000, 9000)]
 # filled in by the other specification modules as they are added
 READER = [("MC_reader.tla", "MC_reader.cfg", 4, "3g", 600)]
+CODEC = [("MC_codec.tla", "MC_codec.cfg", 1, "2g", 600)]
 EXTRA = {"C10": {"quick": TIME_QUICK, "thorough": TIME_THOROUGH},
          "C15": {"quick": READER, "thorough": READER}, "C14": {"quick": READER, "thorough": READER},
-         "C08": {"quick": READER, "thorough": READER}, "C12": {"quick": READER, "thorough": READER}}
+         "C08": {"quick": READER + CODEC, "thorough": READER + CODEC}, "C12": {"quick": READER, "thorough": READER},
+         "C09": {"quick": CODEC, "thorough": CODEC}, "C19": {"quick": CODEC, "thorough": CODEC},
+         "C20": {"quick": CODEC, "thorough": CODEC}, "C17": {"quick": [], "thorough": []}}
+PLAN["C01"] = {"quick": FLOW_QUICK + CODEC, "thorough": FLOW_THOROUGH + CODEC}
 
 
 def spec_hash(files):
@@ -79,6 +83,9 @@ def run_one(module, cfg, workers, heap, timeout, cache):
     if m:
         res["generated"], res["distinct"] = int(m.group(1)), int(m.group(2))
         res["complete"] = int(m.group(3)) == 0 and "Model checking completed" in out
+        if module == "MC_codec.tla" and res["complete"]:
+            # one state; the work is the evaluation of the lemmas over their enumerated domains
+            res["generated"] = res["distinct"] = 1
     m = re.search(r"depth of the complete state graph search is (\d+)", out)
     if m:
         res["depth"] = int(m.group(1))
